@@ -1085,9 +1085,12 @@ bool evaluate_impl(const void *context, const GraphView &graph,
   // next evaluate at the same time continues from there WITHOUT redoing the
   // per-cycle setup (next_scheduled accumulation / push-source pass). A
   // completed cycle resets the cursor to 0. (A cursor of 0 or the initial
-  // invalid sentinel means "fresh".)
+  // invalid sentinel means "fresh".) A cycle that FAILED also leaves the
+  // cursor on the failing node (for failed_node()); that is not a pause and
+  // the next evaluation starts a fresh cycle.
   const bool resuming =
-      state.evaluation_cursor != 0 && state.evaluation_cursor != invalid_cursor;
+      !state.evaluation_failed && state.evaluation_cursor != 0 &&
+      state.evaluation_cursor != invalid_cursor;
 
   state.evaluation_time = evaluation_time;
   state.evaluation_failed = false;
